@@ -39,18 +39,35 @@ ARCHS = ('res', 'res', 'res', 'shared', 'dw', 'conv1d')      # MPS model familie
 # ------------------------------------------------------------------ generators
 
 def _rand_T(rng):
-    if rng.random() < 0.6:
+    r = rng.random()
+    if r < 0.15:
+        return '1/20'                                        # the low end: alpha / T is largest
+    if r < 0.6:
         return rng.choice(TEMPS)
     return str(Fraction(rng.randint(1, 400), 20))            # 0.05 .. 20
 
 
-def _rand_col(rng, n):
-    """n raw coefficients in [-1, 1], pairwise gaps >= 0.05, no ties, exact rationals k/20"""
-    return [str(Fraction(k, 20)) for k in rng.sample(range(-20, 21), n)]
+SCALES = ((Fraction(1, 20), 0.6), (Fraction(1, 4), 0.2), (Fraction(5), 0.2))
 
 
-def _rand_alpha(rng, n, cols):
-    return [_rand_col(rng, n) for _ in range(cols)]
+def _rand_col(rng, n, scale=None):
+    """n raw coefficients, no ties, exact rationals k * step with distinct integers k in -20..20:
+    step 1/20 (values in [-1, 1], gaps >= 0.05), 1/4 (a few units: [-5, 5]) or 5 ([-100, 100]).
+    The tie guard is on the RAW coefficients: the relative gap of alpha / T in float32 is >= 2.5e-3,
+    five orders of magnitude above one ulp; whether the softmax saturates is deliberately not guarded
+    (alpha / T reaches +-100 at T = 1 and +-2000 at T = 1/20: exp() underflows, the arg-max must not move)."""
+    if scale is None:
+        r, scale = rng.random(), SCALES[-1][0]
+        for sc, w in SCALES:
+            if r < w:
+                scale = sc
+                break
+            r -= w
+    return [str(k * scale) for k in rng.sample(range(-20, 21), n)]
+
+
+def _rand_alpha(rng, n, cols, scale=None):
+    return [_rand_col(rng, n, scale) for _ in range(cols)]
 
 
 def _rand_prec(rng, n, allow_zero=False):
@@ -105,6 +122,22 @@ def _gen_cases(rng, n_quant, n_comb, n_mps, n_sn):
             ops = [['A', {'q': _rand_alpha(rng, n, 1)}], ['eval'] if ev else ['train'], ['fwd'],
                    ['T', _rand_T(rng)], ['fwd']]
             cases.append({'kind': 'comb', 'n': n, 'gumbel': g, 'hard': h, 'ops': ops})
+    # enumerated: saturating logits on every run — a few units at the lowest temperature, +-100 at T = 1:
+    # eval, hard non-Gumbel training and soft training (the arg-max of alpha / T must survive exp() underflow)
+    for kind in ('qL', 'qC'):
+        for n in (3, 8):
+            for scale, T in ((Fraction(1, 4), '1/20'), (Fraction(5), '1'), (Fraction(5), '1/20'), (Fraction(1, 4), '1/10')):
+                for h, ev in ((0, 1), (1, 0), (0, 0), (1, 1)):
+                    for _ in range(2):
+                        cout = 1 if kind == 'qL' else (n if _ else 5)      # also square per-channel matrices
+                        ops = [['A', {'q': _rand_alpha(rng, n, cout, scale)}], ['U', T, h, 0, 0],
+                               ['eval'] if ev else ['train'], ['fwd'], ['A', {'q': _rand_alpha(rng, n, cout, scale)}], ['fwd']]
+                        cases.append({'kind': kind, 'prec': _rand_prec(rng, n), 'cout': cout, 'init': ['1', 0, 0, 0], 'ops': ops})
+    for n in (3, 8):
+        for scale, T in ((Fraction(1, 4), '1/20'), (Fraction(5), '1')):
+            for h, ev in ((0, 1), (1, 0), (1, 1), (0, 0)):
+                ops = [['A', {'q': _rand_alpha(rng, n, 1, scale)}], ['T', T], ['eval'] if ev else ['train'], ['fwd']]
+                cases.append({'kind': 'comb', 'n': n, 'gumbel': 0, 'hard': h, 'ops': ops})
     # random walks on stand-alone objects
     for _ in range(n_quant):
         kind = rng.choice(['qL', 'qC'])
@@ -552,13 +585,32 @@ def _argmax(col):
     return max(range(len(col)), key=lambda i: (col[i], -i))
 
 
-def _describe(col, model_desc):
+UNDERFLOW = 87.0      # exp(-x) is a normal, non-zero float32 for x < 87.3
+
+
+def _may_saturate(src_col):
+    """could the float32 softmax of this column (logits alpha / T at the time it was sampled) be EXACTLY
+    one-hot?  Only if every entry but the largest is at least UNDERFLOW below it (exp() underflows to 0 or to a
+    denormal); below that every entry is certainly non-zero."""
+    if src_col is None:
+        return False
+    a, T = src_col
+    mx = max(a)
+    rest = sorted(((mx - v) / T for v in a))[1:]
+    return all(g >= UNDERFLOW for g in rest)
+
+
+def _describe(col, model_desc, src_col=None):
     if model_desc == 'GS':
         return 'GS' if _is_prob(col) else 'X'
     if model_desc == 'GH':
         return 'GH' if _onehot_idx(col, 1e-6) is not None else 'X'
     k = _onehot_idx(col)
     if k is not None:
+        # a soft sample whose exp() underflowed is exactly one-hot in float32: still the soft sample
+        # (a probability vector with the same arg-max); anything else that is one-hot is reported as such
+        if model_desc.startswith('S') and len(col) > 1 and _may_saturate(src_col):
+            return 'S%d' % k
         return 'H%d' % k
     return 'S%d' % _argmax(col) if _is_prob(col) else 'X'
 
@@ -570,10 +622,14 @@ def _tstr(T, cands):
     return repr(T)
 
 
-def _canon(o, model_obs, cands):
+def _canon(o, model_obs, cands, src=None):
+    """`src`: (alpha columns, T) the real object held at the forward that last sampled (None: not sampled
+    by a forward of this walk)"""
     mparts = model_obs.split('|')
     mdesc = mparts[1].split(',') if len(mparts) == 3 else []
-    descs = [_describe(col, mdesc[j] if j < len(mdesc) else '') for j, col in enumerate(o['theta'])]
+    descs = [_describe(col, mdesc[j] if j < len(mdesc) else '',
+                       None if src is None or j >= len(src[0]) else (src[0][j], src[1]))
+             for j, col in enumerate(o['theta'])]
     return '%s,%s,%d,%d|%s|%s' % (o['smp'], _tstr(o['T'], cands), o['h'], o['tr'], ','.join(descs),
                                  ','.join(str(i) for i in o['amax']))
 
@@ -761,7 +817,13 @@ def _process(chk, cases, results):
         if case['kind'] in ('qL', 'qC'):
             cands = cands + [case['init'][0]]
         m_seq = [mobs[i] for i in keep]
-        r_seq = [_canon(res['obs'][n][key], m_seq[n], cands) for n in range(len(keep))]
+        r_seq, src = [], None
+        for n in range(len(keep)):
+            if n > 0 and case['ops'][n - 1][0] == 'fwd':
+                f = _flags_after(case, n - 1)
+                if cls == 'sn' or not f['d']:           # this forward sampled: remember the logits it saw
+                    src = (res['obs'][n][key]['alpha'], res['obs'][n][key]['T'])
+            r_seq.append(_canon(res['obs'][n][key], m_seq[n], cands, src))
         # summary(): the index it reports, wherever the object is reported
         for n in range(len(keep)):
             msel = m_seq[n].split('|')[2]
@@ -791,6 +853,15 @@ def _process(chk, cases, results):
                 f = _flags_after(case, i)
                 b = 'forward:%s:h%d:g%d:d%d' % ('train' if f['tr'] else 'eval', f['h'], f['g'], f['d'])
                 chk.hist[b] = chk.hist.get(b, 0) + 1
+                # how far the logits alpha / T of this forward reach (the softmax saturates beyond ~17, exp()
+                # underflows beyond ~87)
+                big = 0.0
+                for key, cls, prec, _ in res['objs']:
+                    o = res['obs'][i + 1][key]
+                    for a in o['alpha']:
+                        big = max(big, (max(a) - min(a)) / max(o['T'], 1e-9))
+                b = 'forward:logit-spread:%s' % ('<=30' if big <= 30 else '30..87' if big <= 87 else '>87')
+                chk.hist[b] = chk.hist.get(b, 0) + 1
 
 
 def run(chk):
@@ -799,7 +870,8 @@ def run(chk):
                 'quantizers (1,2,3,8 alternatives; up to 8x16) and every hard/gumbel x train/eval on combiners '
                 '(1,2,4,8 branches); random walks of <= 6 calls over {T, hard, gumbel, disable, several options '
                 'at once, train, eval, forward, coefficient write} on stand-alone quantizers/combiners '
-                '(1..8 alternatives, 1..16 channels, T in 0.05..20, gaps >= 0.05) and on the quantizers / '
+                '(1..8 alternatives, 1..16 channels, T in 0.05..20, coefficients in [-1,1], [-5,5] or [-100,100] '
+                'with raw gaps >= 0.05, i.e. alpha/T up to +-2000: saturating softmax, enumerated on every run) and on the quantizers / '
                 'combiners of small MPS models (per-layer and per-channel; families: residual add = shared '
                 'quantizers, a layer invoked twice = its own output quantizer as input quantizer, depthwise '
                 'conv sharing its producer\'s quantizers, Conv1d) and SuperNet models; in MPS models every read '
@@ -808,8 +880,9 @@ def run(chk):
     chk.assumptions.append('reading: "export() materialises the arg-max alternative" = which precision every decision '
                            '(every channel) ends up under, and that export() returns a network; not the function the '
                            'exported network computes (C02)')
-    chk.trusted.append('float32 softmax does not collapse neighbours for gap/T >= 0.0025 nor underflow for '
-                       '(max-min)/T <= 40 (generator bounds): only one-hotness and arg-max are compared')
+    chk.trusted.append('tie guard on the raw coefficients only (relative gap of alpha / T >= 2.5e-3 in float32); the '
+                       'softmax is allowed to saturate: a soft sample is accepted as exactly one-hot only when every '
+                       'other logit is >= 87 below the largest (exp underflow); only one-hotness and arg-max are compared')
     chk.trusted.append('torch.argmax returns the first maximal index (documented); Gumbel noise is not modelled '
                        '(only "probability vector" / "one-hot" is compared for Gumbel samples)')
     chk.assumptions.append('reading: the one-hot clause is demanded literally, also with disable_sampling=True')
